@@ -1,0 +1,38 @@
+//go:build verif
+
+// Verification hook for property C19 (add-only, compiled only with -tags verif).
+// Exposes the delivery path of a real trieSync without a Downloader, peers or goroutines:
+// processNodeData (which keys a delivered blob by its own Keccak-256 before handing it to the
+// trie.Sync scheduler) and commit (batch write of the scheduler's membatch). No logic is
+// re-implemented here.
+
+package downloader
+
+import (
+	"github.com/youchainhq/go-youchain/common"
+	"github.com/youchainhq/go-youchain/core/types"
+	"github.com/youchainhq/go-youchain/trie"
+	"github.com/youchainhq/go-youchain/youdb"
+)
+
+// VerifTrieSync is a real trieSync with a nil Downloader. The kind is fixed to KindValidator so that
+// commit does not touch the Downloader's progress statistics (the only use of the Downloader there).
+type VerifTrieSync struct{ s *trieSync }
+
+func VerifNewTrieSync(db youdb.Database, sched *trie.Sync) *VerifTrieSync {
+	return &VerifTrieSync{s: newTrieSync(nil, types.KindValidator, db, sched)}
+}
+
+// ProcessNodeData calls the real processNodeData.
+func (v *VerifTrieSync) ProcessNodeData(blob []byte) (bool, common.Hash, error) {
+	return v.s.processNodeData(blob)
+}
+
+// Commit calls the real commit(force) and reports what the real process loop would have accounted.
+func (v *VerifTrieSync) Commit(force bool) error { return v.s.commit(force) }
+
+// Account mirrors the bookkeeping of trieSync.process for one successfully injected blob.
+func (v *VerifTrieSync) Account(blob []byte) {
+	v.s.numUncommitted++
+	v.s.bytesUncommitted += len(blob)
+}
